@@ -69,7 +69,7 @@ def gen_world(seed, classes=ALL_CLASSES, want_constraints=0.3, node_p=0.25, tag=
     float_w = (not cover) and rng.random() < 0.3
     if dag:
         r_ = rng.random()
-        if flow_decomp and r_ < 0.3:
+        if (flow_decomp and r_ < 0.3) or (not flow_decomp and r_ < 0.15):
             g = gen.dag_bowtie(rng, float_w=float_w)
         elif r_ < 0.3 + 0.5 * want_constraints:
             g = gen.dag_braid(rng, max_routes=3, wmax=6, float_w=float_w)     # long, crossing routes: meaningful constraints
@@ -126,6 +126,8 @@ def gen_world(seed, classes=ALL_CLASSES, want_constraints=0.3, node_p=0.25, tag=
     nroutes = len(g["routes"]) if g.get("routes") else 3
     if base.startswith("k") or inner:
         k = max(1, nroutes + rng.choice([0, 0, 0, 1, 1, -1]))
+        if not flow_decomp and rng.random() < 0.2:
+            k = 1           # a tight k: nothing can be satisfied "for free" by an extra route
         if dag:
             k = min(k, 5)
         if not dag:
@@ -237,6 +239,21 @@ def gen_world(seed, classes=ALL_CLASSES, want_constraints=0.3, node_p=0.25, tag=
                 worst = min(best_frac(c) for c in cons)
                 args["subpath_constraints_coverage_length"] = max(0.05, int(worst * 100 - 1) / 100.0)
                 args["length_attr"] = "len"
+    # bow-tie graphs carry no generating routes; their constraints pair an edge into a hub with an edge out of
+    # it that has a different flow value (only partially coverable by the paths of a small decomposition)
+    if dag and not node_mode and cons_key not in args and g.get("hub_pairs") and rng.random() < want_constraints + 0.3:
+        pair = rng.choice(g["hub_pairs"])
+        args[cons_key] = [pair]
+        if rng.random() < 0.5:
+            args[cons_key + "_coverage"] = 0.5
+        else:
+            big = rng.randint(0, 1)
+            graph = dict(graph)
+            lens = {tuple(pair[big]): rng.randint(6, 9), tuple(pair[1 - big]): rng.randint(1, 3)}
+            graph["edge_lengths"] = [[u, v, lens.get((u, v), rng.randint(1, 4))] for u, v, _ in graph["edges"]]
+            tot = float(sum(lens.values()))
+            args["subpath_constraints_coverage_length"] = int(100 * lens[tuple(pair[big])] / tot - 1) / 100.0
+            args["length_attr"] = "len"
     # ignored elements
     if rng.random() < 0.2:
         if node_mode:
